@@ -176,17 +176,62 @@ let show_err (e : rerr) : string =
   | ESpreadInstantiationNoMatch a -> f "SpreadInstantiationNoMatch" a None
   | ESpreadExportNoEffect a -> f "SpreadExportNoEffect" a None
 
+(* ---- the reference (LangSpec) verdict in canonical text ---- *)
+let rec show_val = function
+  | VImport n -> "I" ^ show_str n
+  | VInst k -> "S" ^ string_of_int (int_of_nat k)
+  | VAccess (v, e) -> "A(" ^ show_val v ^ "." ^ show_str e ^ ")"
+
+let show_comp (e : senv) : string =
+  let imports = String.concat "," (List.map (fun (n, k) -> Printf.sprintf "%s:%d" (show_str n) (int_of_n k)) e.se_imports) in
+  let inst (i : sinst) =
+    let args = List.filter_map (fun (n, b) -> match b with BArg v -> Some (show_str n ^ "=" ^ show_val v) | _ -> None) i.si_bindings in
+    let impl = List.filter_map (fun (n, b) -> match b with BImplicit -> Some (show_str n) | _ -> None) i.si_bindings in
+    Printf.sprintf "%d(%s;%s)" (int_of_nat i.si_pkg) (String.concat "," args) (String.concat "," impl) in
+  let exports = String.concat "," (List.map (fun (n, v) -> show_str n ^ "=" ^ show_val v) e.se_exports) in
+  Printf.sprintf "C|imports=%s|insts=%s|exports=%s" imports (String.concat "/" (List.map inst e.se_insts)) exports
+
+let show_ill (i : illformed) : string =
+  let f c n = Printf.sprintf "X|%s|%s" c (match n with Some s -> show_str s | None -> "-") in
+  match i with
+  | IUndefinedName n -> f "UndefinedName" (Some n) | IDuplicateName n -> f "DuplicateName" (Some n)
+  | IMissingArgument n -> f "MissingArgument" (Some n) | IDuplicateArgument n -> f "DuplicateArgument" (Some n)
+  | INonInstanceAccess -> f "NonInstanceAccess" None | INonInstanceSpread -> f "NonInstanceSpread" None
+  | IFillNotLast -> f "FillNotLast" None | IIneffectiveSpread -> f "IneffectiveSpread" None
+  | IConflictingExport n -> f "ConflictingExport" (Some n) | IUnknownPackage n -> f "UnknownPackage" (Some n)
+  | IUnknownPath n -> f "UnknownPath" (Some n) | IUnknownArgument n -> f "UnknownArgument" (Some n)
+  | IArgumentMismatch n -> f "ArgumentMismatch" (Some n) | IUnknownExport n -> f "UnknownExport" (Some n)
+  | IConflictingImport n -> f "ConflictingImport" (Some n) | IInvalidName n -> f "InvalidName" (Some n)
+  | IExportNeedsName -> f "ExportNeedsName" None | IOutOfScope -> f "OutOfScope" None
+
+let bits_of s = (s.[0] = '1', s.[1] = '1')
+(* argv.(1): the flags accepted as known deviations ("11" = both, the default) *)
+let known_flags = if Array.length Sys.argv > 1 then bits_of Sys.argv.(1) else (true, true)
+let flags (a, b) : deviations0 = { exact_name_first = a; export_spread_conflicts_error = b }
+
+let spec_verdict (fl : bool * bool) (u : runiverse) (d : document) : string =
+  match denote (flags fl) u d with
+  | Inl e -> show_comp e
+  | Inr i -> show_ill i
+
 let run_model (u : runiverse) (src : n list) : string =
   match parse_impl src with
   | POk (d, _) ->
       unknown_name := false;
       let r = resolve u d in
-      if !unknown_name then "UNKNOWN-NAME" else
-      (match r with
-       | Inl st -> Printf.sprintf "OK|%s|%s" (dump u.ru_graph st.rs_g) (encode_prediction u.ru_graph st.rs_g)
-       | Inr (FErr e) -> show_err e
-       | Inr (FPanic _) -> "PANIC"
-       | Inr (FUnsupported _) -> "UNSUPPORTED")
+      let m =
+        if !unknown_name then "UNKNOWN-NAME" else
+        (match r with
+         | Inl st -> Printf.sprintf "OK|%s|%s" (dump u.ru_graph st.rs_g) (encode_prediction u.ru_graph st.rs_g)
+         | Inr (FErr e) -> show_err e
+         | Inr (FPanic _) -> "PANIC"
+         | Inr (FUnsupported _) -> "UNSUPPORTED") in
+      let k = spec_verdict known_flags u d in
+      let dflags = List.filter (fun fl -> fl <> known_flags) [(false, false); (true, false); (false, true)] in
+      (* the reference as written, and with each single known deviation switched back: `=` when equal to SPEC *)
+      let others = List.map (fun fl -> let v = spec_verdict fl u d in
+                               Printf.sprintf "%d%d:%s" (if fst fl then 1 else 0) (if snd fl then 1 else 0) (if v = k then "=" else v)) dflags in
+      m ^ "\t" ^ k ^ "\t" ^ String.concat "\t" others
   | PErr _ -> "PARSE-ERR"
   | PPanic _ -> "PARSE-PANIC"
   | PUnmodelled -> "PARSE-UNMODELLED"
